@@ -89,6 +89,16 @@ def gen_cases(tier, seed):
             numform = r.random()
             cases.append({"k": "for", "d": d.isoformat(), "h": h if with_time else None, "mi": mi if with_time else None,
                           "j": r.choice(["for", "für"]), "n": n, "u": u, "w": w, "word": numform < 0.2 and n <= 31})
+    # hour / minute durations that cross midnight at a month or year end (every field of the end has to roll over)
+    for y in (2016, 2019, 2020, 2023, 2024, 2028):
+        for (mo, dd) in ((12, 31), (2, 28), (2, 29), (11, 30), (1, 31), (4, 30)):
+            if dd > cal.mlen(y, mo):
+                continue
+            for (h, mi) in ((22, 15), (23, 0), (23, 59)):
+                for (n, u, w) in ((2, "hours", "hours"), (90, "minutes", "minutes"), (30, "hours", "stunden"), (3000, "minutes", "minuten"), (1, "hours", "hour")):
+                    if tier != "thorough" and (y + mo + h + n) % 3:
+                        continue
+                    cases.append({"k": "for", "d": date(y, mo, dd).isoformat(), "h": h, "mi": mi, "j": "for" if n % 2 == 0 else "für", "n": n, "u": u, "w": w, "word": False})
     # '<N days/nights> <date range>'
     for i in range(600 if tier == "thorough" else 120):
         a = date(2016, 1, 1) + timedelta(days=r.randrange(5000))
